@@ -659,9 +659,12 @@ func (w *docWorld) projBack(d dDoc, payload []byte, src *jsonapi.Document) dBack
 	} else {
 		b.MetaSame = jsonEq(srcMeta, gotMeta)
 	}
-	b.ErrorsSame = len(src.Errors) == len(doc2.Errors)
-	for i := range src.Errors {
-		if i < len(doc2.Errors) && normErr(src.Errors[i]) != normErr(doc2.Errors[i]) {
+	// the errors as the document was given them (testErrors is a pure function of their number):
+	// what MarshalDocument may have done to the document's own slice meanwhile does not count
+	given := testErrors(len(src.Errors))
+	b.ErrorsSame = len(given) == len(doc2.Errors)
+	for i := range given {
+		if i < len(doc2.Errors) && normErr(given[i]) != normErr(doc2.Errors[i]) {
 			b.ErrorsSame = false
 		}
 	}
